@@ -75,12 +75,18 @@ func (p *ProbeProvider) Get(ctx context.Context, remote net.Addr) ([]byte, tq.Ha
 	pc := p.byKey[remote.String()]
 	p.mu.Unlock()
 	if pc == nil || pc.spec.Refuse {
+		id := 0
+		if pc != nil {
+			id = pc.conn
+		}
+		p.w.Rec(world.Ev{Actor: "conn", Kind: "get-end", Conn: id, A: 0, S: "refused"})
 		return nil, nil, fmt.Errorf("no secret for %v", remote)
 	}
 	key := pc.spec.SrvKey
 	if key == nil {
 		key = []byte{}
 	}
+	p.w.Rec(world.Ev{Actor: "conn", Kind: "get-end", Conn: pc.conn, A: 1, Bytes: append([]byte(nil), key...)})
 	return key, &probeHandler{pc: pc, id: 0}, nil
 }
 
